@@ -79,6 +79,9 @@ M = [
     ('sync-drops-falsy-exception', 'streamz/core.py', "    if error[0] is not None:\n        raise error[0]", "    if error[0]:\n        raise error[0]", ['C16']),
     ('textfile-seeks-to-end-at-every-start', 'streamz/sources.py', "        if self.stopped:\n            self.stopped = False\n            self.started = True\n            if not self._running:\n                # otherwise the previous run()", "        if getattr(self, 'from_end', False) and hasattr(self, 'file'):\n            self.file.seek(0, 2)\n        if self.stopped:\n            self.stopped = False\n            self.started = True\n            if not self._running:\n                # otherwise the previous run()", ['C18']),
     ('collect-flush-stays-on-callers-thread', 'streamz/core.py', "            if not on_loop:\n                # called from the user's thread on a blocking pipeline", "            if False:\n                # called from the user's thread on a blocking pipeline", ['C05']),
+    ('map-async-new-worker-does-not-wait-for-old', 'streamz/core.py', "        if previous is not None and not previous.done():\n", "        if False:\n", ['C02']),
+    # map-async-worker-blind-to-stop-while-idle (wait for the job only): equivalent -- the stale worker takes one more job and
+    # exits, the new worker waits for it, order is kept
 ]
 
 
